@@ -547,14 +547,15 @@ fn serde_shapes() {
 // polled until it answers None ONCE -- serde does not promise that a further poll is harmless (here it is an
 // error and is counted).  Decoding must consume the stream exactly to its end and yield exactly its entries,
 // for every relation between the number of entries and the target capacity.
-struct StrictState { pos: std::cell::Cell<usize>, ended: std::cell::Cell<bool>, late_polls: std::cell::Cell<u32>, fail_at: Option<usize>, fail_value_at: Option<usize> }
+struct StrictState { pos: std::cell::Cell<usize>, ended: std::cell::Cell<bool>, late_polls: std::cell::Cell<u32>, fail_at: Option<usize>, fail_value_at: Option<usize>, polls: std::cell::Cell<u32> }
 struct StrictDe<'a> { items: &'a [u32], map: bool, st: &'a StrictState }
 struct StrictAcc<'a> { items: &'a [u32], st: &'a StrictState }
 impl<'a> StrictAcc<'a> {
     fn pull(&mut self) -> Result<Option<u32>, serde::de::value::Error> {
+        self.st.polls.set(self.st.polls.get() + 1);
         if self.st.ended.get() { self.st.late_polls.set(self.st.late_polls.get() + 1); return Err(serde::de::Error::custom("polled after the end")); }
         let p = self.st.pos.get();
-        if self.st.fail_at == Some(p) { return Err(serde::de::Error::custom("the stream is broken here")); }
+        if self.st.fail_at == Some(p) { self.st.ended.set(true); return Err(serde::de::Error::custom("the stream is broken here")); }
         if p == self.items.len() { self.st.ended.set(true); return Ok(None); }
         self.st.pos.set(p + 1);
         Ok(Some(self.items[p]))
@@ -591,10 +592,42 @@ impl<'de, 'a> serde::Deserializer<'de> for StrictDe<'a> {
 impl<'de> serde::Deserialize<'de> for D {
     fn deserialize<De: serde::Deserializer<'de>>(d: De) -> Result<D, De::Error> { <u32 as serde::Deserialize>::deserialize(d).map(|x| D(if x >= 1000 { x - 1000 + 1 } else { x })) }
 }
+// The same family of streams is run on coq/Model/Stream.v (`decode`) inside the kernel: one row per stream,
+// "kind n cap fail : result len polls late finished" (kind 0 map / 1 set; fail = position of the broken entry or 9 for
+// none; result 0 Ok / 1 Err / 2 panic -- more entries than slots; for a panic only the result is compared).
+// Entry i has key class 5 + i, except that with `dup` the last entry repeats the first key.
+pub fn stream_table() -> Vec<String> {
+    use serde::Deserialize;
+    let mut rows = Vec::new();
+    fn one<const M: usize>(rows: &mut Vec<String>, kind: u32, n: usize, fail: Option<usize>, dup: bool) {
+        let mut items: Vec<u32> = (0..n as u32).map(|i| 5 + i).collect();
+        if dup && n >= 2 { items[n - 1] = items[0]; }
+        let st = StrictState { pos: 0.into(), ended: false.into(), late_polls: 0.into(), fail_at: fail, fail_value_at: None, polls: 0.into() };
+        let r = catch_unwind(AssertUnwindSafe(|| {
+            if kind == 0 { Map::<u32, u32, M>::deserialize(StrictDe { items: &items, map: true, st: &st }).map(|m| m.len()) }
+            else { Set::<u32, M>::deserialize(StrictDe { items: &items, map: false, st: &st }).map(|s| s.len()) }
+        }));
+        let head = format!("{} {} {} {} {}", kind, n, M, fail.map(|x| x as i64).unwrap_or(9), dup as u32);
+        rows.push(match r {
+            Err(_) => format!("{} : 2", head),
+            Ok(Ok(len)) => format!("{} : 0 {} {} {} {}", head, len, st.polls.get(), st.late_polls.get(), st.ended.get() as u32),
+            Ok(Err(_)) => format!("{} : 1 0 {} {} {}", head, st.polls.get(), st.late_polls.get(), st.ended.get() as u32),
+        });
+    }
+    for kind in 0..2u32 { for n in 0..=4usize { for dup in [false, true] { if dup && n < 2 { continue; }
+        let mut fails: Vec<Option<usize>> = vec![None]; for j in 0..n { fails.push(Some(j)); }
+        for fail in fails {
+            one::<0>(&mut rows, kind, n, fail, dup); one::<1>(&mut rows, kind, n, fail, dup); one::<2>(&mut rows, kind, n, fail, dup);
+            one::<3>(&mut rows, kind, n, fail, dup); one::<4>(&mut rows, kind, n, fail, dup); one::<8>(&mut rows, kind, n, fail, dup);
+        }
+    } } }
+    rows
+}
+
 fn strict_stream_shapes() {
     use serde::Deserialize;
     fn set_case<const M: usize>(items: &[u32]) {
-        let st = StrictState { pos: 0.into(), ended: false.into(), late_polls: 0.into(), fail_at: None, fail_value_at: None };
+        let st = StrictState { pos: 0.into(), ended: false.into(), late_polls: 0.into(), fail_at: None, fail_value_at: None, polls: 0.into() };
         let r = Set::<u32, M>::deserialize(StrictDe { items, map: false, st: &st });
         let ok = matches!(&r, Ok(s) if s.len() == items.len() && items.iter().all(|x| s.contains(x)));
         if !ok || st.late_polls.get() != 0 || !st.ended.get() {
@@ -602,7 +635,7 @@ fn strict_stream_shapes() {
         }
     }
     fn map_case<const M: usize>(items: &[u32]) {
-        let st = StrictState { pos: 0.into(), ended: false.into(), late_polls: 0.into(), fail_at: None, fail_value_at: None };
+        let st = StrictState { pos: 0.into(), ended: false.into(), late_polls: 0.into(), fail_at: None, fail_value_at: None, polls: 0.into() };
         let r = Map::<u32, u32, M>::deserialize(StrictDe { items, map: true, st: &st });
         let ok = matches!(&r, Ok(m) if m.len() == items.len() && items.iter().all(|x| m.get(x) == Some(&(x + 1000))));
         if !ok || st.late_polls.get() != 0 || !st.ended.get() {
@@ -616,7 +649,7 @@ fn strict_stream_shapes() {
         for value_side in [false, true] {
             if value_side && k == 4 { continue; }
             ledger_reset();
-            let st = StrictState { pos: 0.into(), ended: false.into(), late_polls: 0.into(), fail_at: if value_side { None } else { Some(k) }, fail_value_at: if value_side { Some(k) } else { None } };
+            let st = StrictState { pos: 0.into(), ended: false.into(), late_polls: 0.into(), fail_at: if value_side { None } else { Some(k) }, fail_value_at: if value_side { Some(k) } else { None }, polls: 0.into() };
             let r = Map::<D, D, 6>::deserialize(StrictDe { items: &keys, map: true, st: &st });
             let built = if value_side { 2 * k as u32 + 1 } else { 2 * k as u32 };
             if r.is_ok() { fault(format!("op=shapes SERDE_SHAPE a map stream that breaks at entry {} ({}) decodes to Ok", k, if value_side { "value" } else { "key" })); }
@@ -624,7 +657,7 @@ fn strict_stream_shapes() {
             ledger_ok(built, &format!("Map<D,D,6> decoded from a stream that breaks at the {} of entry {}", if value_side { "value" } else { "key" }, k));
         }
         ledger_reset();
-        let st = StrictState { pos: 0.into(), ended: false.into(), late_polls: 0.into(), fail_at: Some(k), fail_value_at: None };
+        let st = StrictState { pos: 0.into(), ended: false.into(), late_polls: 0.into(), fail_at: Some(k), fail_value_at: None, polls: 0.into() };
         let ids = [0u32, 1, 2, 3];
         let r = Set::<D, 5>::deserialize(StrictDe { items: &ids, map: false, st: &st });
         if r.is_ok() { fault(format!("op=shapes SERDE_SHAPE a sequence stream that breaks at element {} decodes to Ok", k)); }
